@@ -1,5 +1,6 @@
-(* C10: every accepted complete document over the grammar's alphabet (markers and references in value position)
-   is the flattening of a well-formed document tree (soundness of the validator with respect to the tree grammar of Model/RulesSpec.v). *)
+(* C10: every accepted complete document whose keys are plain (no marker, reference or array in chunks where a map
+   key or a field name of a record type is expected) is the flattening of a well-formed document tree (soundness
+   of the validator with respect to the tree grammar of Model/RulesSpec.v, arrays delivered in chunks included). *)
 From CE Require Import Model.Rules Model.RulesSpec Proofs.RulesPassthrough Proofs.RulesKeys Proofs.RulesInvariants Proofs.RulesStructure
   Proofs.RulesLimits Proofs.RulesChunks Proofs.RulesMarkers Proofs.RulesDocument Proofs.RulesComplete.
 From Coq Require Import ZifyN ZifyNat ZifyBool.
@@ -41,7 +42,7 @@ Qed.
 Lemma rstep_det cfg c e c1 o c2 o2 : rstep cfg c e = Some (c1, o) -> rstep cfg c e = Some (c2, o2) -> c1 = c2.
 Proof. intros H1 H2. rewrite H1 in H2. inv_some. reflexivity. Qed.
 
-(* the events of the grammar: all but arrays delivered in chunks *)
+(* the events of the grammar: all *)
 Notation alpha := grammar_event.
 
 (* which methods a value rule does not reject *)
@@ -123,12 +124,27 @@ Inductive vstep (cfg : rcfg) (c : rctx) (e : event) (c1 : rctx) : Prop :=
             is_marker_entry (cur c1) id -> stack c1 = bump (cur c) :: stack c -> depth c1 = depth c -> objects c1 = objects c + 1 ->
             rectypes c1 = rectypes c -> regs c1 = regs c -> marker_id c1 = id -> vstep cfg c e c1
 | VS_ref id : e = ERefLocal id -> validate_identifier cfg id = true -> e_rule (cur c) <> RTopLevel ->
-            room (cur c) -> objects c + 1 <= max_object_count cfg -> vstep cfg c e c1.
+            room (cur c) -> objects c + 1 <= max_object_count cfg -> vstep cfg c e c1
+| VS_abegin t dt : is_array_begin e = true -> chunked_type e = Some t -> array_dtype t = Some dt ->
+            arr_guard (pos_of_rule (e_rule (cur c))) t = true -> room (cur c) -> objects c + 1 <= max_object_count cfg ->
+            c1 = abegin_state t dt (nno_state c) -> vstep cfg c e c1.
+
+Lemma inv_abegin cfg c e c1 o :
+  rstep cfg c e = Some (c1, o) -> is_value_rule (e_rule (cur c)) = true -> is_array_begin e = true -> vstep cfg c e c1.
+Proof.
+  intros H V AB. apply rstep_inv in H as [pl [P [_ Hc]]]. rewrite (abegin_plan cfg e AB) in P.
+  destruct (chunked_type e) as [t|] eqn:CT; [|discriminate]. unfold mkplan in P. inv_some. cbn [p_nno p_meth p_args] in Hc.
+  destruct Hc as [Rm [O Hc]]. rewrite (abegin_exec cfg _ _ t _ V) in Hc.
+  destruct (arr_guard (pos_of_rule (e_rule (cur c))) t) eqn:G; [|discriminate].
+  destruct (array_dtype t) as [dt|] eqn:AD; [|discriminate]. inv_some. eapply VS_abegin; eauto.
+Qed.
 
 Lemma inv_value cfg c e c1 o :
   rstep cfg c e = Some (c1, o) -> is_value_rule (e_rule (cur c)) = true -> alpha e = true -> vstep cfg c e c1.
 Proof.
-  intros H V A. pose proof H as H0. apply rstep_inv in H as [pl [P [Ho Hc]]].
+  intros H V A. pose proof H as H0.
+  destruct (is_array_begin e) eqn:AB; [exact (inv_abegin cfg c e c1 o H0 V AB)|].
+  apply rstep_inv in H as [pl [P [Ho Hc]]].
   assert (forall t, e = trivia_event t -> vstep cfg c e c1) as Triv.
   { intros t ->. apply (VS_trivia _ _ _ _ t); [reflexivity|].
     pose proof (step_trivia cfg c t (value_rule_trivia _ V)) as S. rewrite S in H0. inv_some. reflexivity. }
@@ -151,7 +167,7 @@ Proof.
     apply VS_leaf; [exact L | exact W|].
     destruct (step_leaf cfg c e _ eq_refl V W Rm O) as [c' [S V']]. rewrite (rstep_det _ _ _ _ _ _ _ H0 S). exact V'.
   - destruct e as [| |v| |m t| |b| | |n|n|z|[z|]|bits|[bf|]|d|[d|]|s|b|s| | |id|id| | | |id|id|t cnt d|t d|mt d|ct d|ct d|t|mt|t ct|n m|d];
-      try discriminate L; try discriminate A; cbn [ev_plan] in P;
+      try discriminate L; try discriminate AB; cbn [ev_plan] in P;
       repeat match goal with H : (if ?b then _ else _) = Some _ |- _ => destruct b eqn:?; try discriminate H end;
       unfold mkplan in P; inv_some; cbn [p_nno p_meth p_args] in Hc.
     all: try (apply (value_meth_ok _ _ _ _ _ _ _ V) in Hc; discriminate Hc).
@@ -246,13 +262,16 @@ Inductive kstep (cfg : rcfg) (c : rctx) (tgt : option rule) (e : event) (c1 : rc
              view c1 = (keyed (cur c) k tgt, stack c, depth c, objects c + 1, rectypes c, regs c) -> kstep cfg c tgt e c1
 | KS_end : e = EEnd -> kstep cfg c tgt e c1
 | KS_marker id : e = EMarker id -> e_rule (cur c) = RMapKey -> kstep cfg c tgt e c1
-| KS_ref id : e = ERefLocal id -> e_rule (cur c) = RMapKey -> kstep cfg c tgt e c1.
+| KS_ref id : e = ERefLocal id -> e_rule (cur c) = RMapKey -> kstep cfg c tgt e c1
+| KS_abegin : is_array_begin e = true -> kstep cfg c tgt e c1.
 
 Lemma inv_key cfg c e c1 o rk tgt :
   rstep cfg c e = Some (c1, o) -> e_rule (cur c) = rk -> rk = RMapKey \/ rk = RRecordType -> key_rule rk tgt -> alpha e = true ->
   kstep cfg c tgt e c1.
 Proof.
-  intros H R RK KR A. pose proof H as H0. apply rstep_inv in H as [pl [P [Ho Hc]]].
+  intros H R RK KR A. pose proof H as H0.
+  destruct (is_array_begin e) eqn:AB; [apply KS_abegin; exact AB|].
+  apply rstep_inv in H as [pl [P [Ho Hc]]].
   assert (trivia_rule (e_rule (cur c)) = true) as TR by (rewrite R; destruct RK as [E|E]; rewrite E; reflexivity).
   assert (forall t, e = trivia_event t -> kstep cfg c tgt e c1) as Triv.
   { intros t ->. apply (KS_trivia _ _ _ _ _ t); [reflexivity|]. pose proof (step_trivia cfg c t TR) as S. rewrite S in H0. inv_some. reflexivity. }
@@ -268,7 +287,7 @@ Proof.
     destruct (step_key_gen cfg c e k rk tgt R (conj C1 (conj C2 C3)) KO K Fr Rm O) as [c' [S V']].
     rewrite (rstep_det _ _ _ _ _ _ _ H0 S). exact V'. }
   destruct e as [| |v| |m t| |b| | |n|n|z|[z|]|bits|[bf|]|d|[d|]|s|b|s| | |id|id| | | |id|id|t cnt d|t d|mt d|ct d|ct d|t|mt|t ct|n m|d];
-    try discriminate A; cbn [ev_plan] in P;
+    try discriminate AB; cbn [ev_plan] in P;
     repeat match goal with H : (if ?b then _ else _) = Some _ |- _ => destruct b eqn:?; try discriminate H end;
     unfold mkplan in P; inv_some; cbn [p_nno p_meth p_args] in Hc.
   all: try (apply KM in Hc; discriminate Hc).
@@ -403,13 +422,25 @@ Inductive mstep (cfg : rcfg) (c : rctx) (id : bytes) (p : entry) (st : list entr
             mstep cfg c id p st mk fw e c1
 | MS_record rid n : e = ERecord rid -> validate_identifier cfg rid = true -> alookup rid (rectypes c) = Some n ->
             view c1 = (mk_entry RRecord DT_Record (Some n), bump (cur c) :: stack c, depth c + 1, objects c + 1, rectypes c, regs c) ->
-            mstep cfg c id p st mk fw e c1.
+            mstep cfg c id p st mk fw e c1
+| MS_abegin t dt : is_array_begin e = true -> chunked_type e = Some t -> array_dtype t = Some dt ->
+            assert_array_type t Allow_Markable = true -> arr_guard (pos_of_rule (e_rule p)) t = true ->
+            objects c + 1 <= max_object_count cfg -> c1 = abegin_state t dt (nno_state c) -> mstep cfg c id p st mk fw e c1.
 
 Lemma inv_marked cfg c e c1 o id p st mk fw :
   rstep cfg c e = Some (c1, o) -> is_marker_entry (cur c) id -> stack c = p :: st -> is_value_rule (e_rule p) = true ->
   marker_id c = id -> Reg c mk fw -> alpha e = true -> mstep cfg c id p st mk fw e c1.
 Proof.
-  intros H ME S V Mi Rg A. pose proof H as H0. pose proof ME as [M1 [M2 M3]]. apply rstep_inv in H as [pl [P [Ho Hc]]].
+  intros H ME S V Mi Rg A. pose proof H as H0. pose proof ME as [M1 [M2 M3]].
+  destruct (is_array_begin e) eqn:AB.
+  { apply rstep_inv in H as [pl [P [_ Hc]]]. rewrite (abegin_plan cfg e AB) in P.
+    destruct (chunked_type e) as [t|] eqn:CT; [|discriminate]. unfold mkplan in P. injection P as <-. cbn [p_nno p_meth p_args] in Hc.
+    destruct Hc as [Rm [O Hc]]. rewrite M1, abegin_marker_cell in Hc. cbn [exec_prims exec_prim array_args a_arrty mask_value] in Hc.
+    destruct (assert_array_type t Allow_Markable) eqn:AM; [|discriminate Hc].
+    change (stack (nno_state c)) with (stack c) in Hc. rewrite S, call_rule_S, (abegin_exec cfg _ _ t _ V) in Hc.
+    destruct (arr_guard (pos_of_rule (e_rule p)) t) eqn:G; [|discriminate Hc].
+    destruct (array_dtype t) as [dt|] eqn:AD; [|discriminate Hc]. injection Hc as <-. eapply MS_abegin; eauto. }
+  apply rstep_inv in H as [pl [P [Ho Hc]]].
   destruct (leaf_event e) eqn:L.
   - (* a value in one event *)
     destruct (leaf_event_plan cfg e pl L P) as [Pn Pm]. rewrite Pn in Hc. destruct Hc as [Rm [O E]]. rewrite M1 in E.
@@ -473,7 +504,7 @@ Proof.
       * eapply markable_intro; eauto.
   - subst id. destruct marker_container_cells as [K1 [K2 [K3 [K4 [K5 _]]]]].
     destruct e as [| |v| |m t| |b| | |n|n|z|[z|]|bits|[bf|]|d|[d|]|s|b|s| | |id0|id0| | | |id0|id0|t cnt d|t d|mt d|ct d|ct d|t|mt|t ct|n m|d];
-      try discriminate L; try discriminate A; cbn [ev_plan] in P;
+      try discriminate L; try discriminate AB; cbn [ev_plan] in P;
       repeat match goal with H : (if ?b then _ else _) = Some _ |- _ => destruct b eqn:?; try discriminate H end;
       unfold mkplan in P; inv_some; cbn [p_nno p_meth p_args] in Hc.
     all: try (rewrite M1 in Hc; apply marker_meth_ok in Hc; discriminate Hc).
@@ -548,7 +579,6 @@ Qed.
 Definition is_trivia (e : event) : bool := match e with EPadding | EComment _ _ => true | _ => false end.
 Definition is_rectype (e : event) : bool := match e with ERecordType _ => true | _ => false end.
 Definition is_end (e : event) : bool := match e with EEnd => true | _ => false end.
-Notation is_mr := is_marker_or_ref.
 
 Lemma is_trivia_spec e : is_trivia e = true -> exists t, e = trivia_event t.
 Proof. destruct e; try discriminate; intros _; [exists TPad | exists (TComment multi text)]; reflexivity. Qed.
@@ -570,7 +600,8 @@ Proof. cbn [steps]. destruct (rstep cfg c e) as [[c1 o]|]; [eauto | discriminate
 
 (* no marker and no reference where a map key is expected, on the run of [es] from [c] *)
 Definition NKM (cfg : rcfg) (c : rctx) (es : list event) : Prop :=
-  forall p e r c', es = p ++ e :: r -> steps cfg c p = Some c' -> is_mr e = true -> e_rule (cur c') <> RMapKey.
+  forall p e r c', es = p ++ e :: r -> steps cfg c p = Some c' -> not_a_plain_key e = true ->
+                   e_rule (cur c') <> RMapKey /\ e_rule (cur c') <> RRecordType.
 
 Lemma NKM_app cfg c a b c1 : NKM cfg c (a ++ b) -> steps cfg c a = Some c1 -> NKM cfg c1 b.
 Proof.
@@ -578,7 +609,7 @@ Proof.
 Qed.
 Lemma NKM_cons cfg c e es c1 o : NKM cfg c (e :: es) -> rstep cfg c e = Some (c1, o) -> NKM cfg c1 es.
 Proof. intros H R. apply (NKM_app cfg c [e] es c1 H). cbn [steps]. rewrite R. reflexivity. Qed.
-Lemma NKM_head cfg c e es : NKM cfg c (e :: es) -> is_mr e = true -> e_rule (cur c) <> RMapKey.
+Lemma NKM_head cfg c e es : NKM cfg c (e :: es) -> not_a_plain_key e = true -> e_rule (cur c) <> RMapKey /\ e_rule (cur c) <> RRecordType.
 Proof. intros H M. apply (H [] e es c); [reflexivity | reflexivity | exact M]. Qed.
 
 (* the value is complete: the entry in force counts it and moves on *)
@@ -846,7 +877,7 @@ Section ParseProofs.
     cbn [length] in L. assert (length es' <= n)%nat as L' by lia.
     pose proof (rstep_depth_bound _ _ _ _ _ R Dp) as Dp1.
     destruct (inv_value cfg c e c1 o R V Ae)
-      as [t E1 E2 | Lf W Vw | m rc dt exp B Vw | rid k E1 Vi Al Vw | E1 Cl | id E1 St | id E1 Vi ME S1 D1 O1 R1 G1 Mi | id E1 Vi NTp Rm O].
+      as [t E1 E2 | Lf W Vw | m rc dt exp B Vw | rid k E1 Vi Al Vw | E1 Cl | id E1 St | id E1 Vi ME S1 D1 O1 R1 G1 Mi | id E1 Vi NTp Rm O | t dt AB CT AD G Rm O Ec1].
     - (* trivia *)
       subst e c1. cbn [head_ok] in Hd. destruct Hd as [Hd1 Hd2].
       assert (closable (e_rule (cur c)) = false) as NC.
@@ -909,6 +940,19 @@ Section ParseProofs.
       cbn [flatten wf_val height top_ok app reg_val]. split; [reflexivity|]. split; [exact Vi|].
       split; [cbn [steps]; rewrite R; reflexivity|]. split; [unfold Done; auto|]. split; [exact S'|]. split; [lia|].
       split; [destruct (id_mem id mk || id_mem id fw); reflexivity|]. split; [exact F7 | intro X; contradiction].
+    - (* an array delivered in chunks *)
+      subst c1.
+      destruct (array_parse cfg t _ (length es') es' _ cf 0 (le_n _) S' T (abegin_AS t dt _)) as [chs [rest [E [W Lr]]]].
+      assert (chunked_ok cfg (pos_of_rule (e_rule (cur c))) e chs = true) as CK by (unfold chunked_ok; rewrite CT, AD, G, W; reflexivity).
+      destruct (chunked_steps cfg c e chs V CK Rm O) as [c' [Sc [Vc Gc]]].
+      assert (steps cfg c' rest = Some cf) as Sr.
+      { assert (steps cfg c ((e :: flat_map chunk_events chs) ++ rest) = Some cf) as X
+          by (cbn [app steps]; rewrite R, <- E; exact S').
+        rewrite steps_app, Sc in X. exact X. }
+      unfold core in Vc. inversion Vc as [[E1 E2 E3 E4 E5]].
+      exists (VChunked e chs), rest, c', mk, fw. cbn [flatten wf_val height top_ok reg_val].
+      split; [rewrite E; reflexivity|]. split; [exact CK|]. split; [exact Sc|]. split; [unfold Done; auto|]. split; [exact Sr|].
+      split; [lia|]. split; [reflexivity|]. split; [exact (Reg_regs _ _ _ _ Gc Rg) | reflexivity].
   Qed.
 
 
@@ -922,7 +966,7 @@ Section ParseProofs.
     cbn [length] in L. assert (length es' <= n)%nat as L' by lia.
     pose proof (rstep_depth_bound _ _ _ _ _ R Dp) as Dp1.
     destruct (inv_marked cfg c e c1 o id p st mk fw R ME St V Mi Rg Ae)
-      as [E1 E2 | Lf W Mk Nm F1 F2 F3 F4 Rg1 | m rc dt exp B Vw | rid k E1 Vi Al Vw].
+      as [E1 E2 | Lf W Mk Nm F1 F2 F3 F4 Rg1 | m rc dt exp B Vw | rid k E1 Vi Al Vw | t dt AB CT AD AM G O Ec1].
     - (* padding *)
       subst e c1.
       destruct (HM es' c cf id p st mk fw L' S' T Aes K' ME St V Mi Dp Rg) as [pads [v [rest [c2 [mk' [fw' [E [Mkb [W [S2 [F1 [F2 [F3 [F4 [S3 [Hh [Rl [Nm Rg2]]]]]]]]]]]]]]]]]].
@@ -964,6 +1008,35 @@ Section ParseProofs.
       split; [rewrite Fv; cbn [steps]; rewrite R, steps_app, S2; cbn [steps]; rewrite R3; reflexivity|].
       split; [exact G1|]. split; [exact G2|]. split; [rewrite G3, U2, E3; clear; lia|]. split; [congruence|]. split; [exact S5|].
       split; [rewrite Hv; rewrite E3 in Hh; clear - Hh; lia|]. split; [exact Rl|]. split; [exact Nm | exact G5].
+    - (* an array delivered in chunks *)
+      subst c1.
+      destruct (array_parse cfg t _ (length es') es' _ cf 0 (le_n _) S' T (abegin_AS t dt _)) as [chs [rest [E [W Lr]]]].
+      assert (chunked_ok cfg (pos_of_rule (e_rule p)) e chs = true) as CK by (unfold chunked_ok; rewrite CT, AD, G, W; reflexivity).
+      assert (markable (VChunked e chs) = true) as Mkb by (cbn [markable]; rewrite CT; exact AM).
+      assert (id_mem id mk = false /\ refcount c + 1 <= max_local_reference_count cfg) as [Nm Rc].
+      { pose proof S' as X. rewrite E in X.
+        destruct (array_run cfg t _ chs _ 0 rest (abegin_AS t dt (nno_state c)) W) as [cA [F Eq]]. rewrite Eq in X.
+        destruct (end_container_like (call_rule 5 cfg) true cA) as [cz|] eqn:EL; [|discriminate X].
+        destruct F as [F1 [F2 [F3 [F4 [F5 F6]]]]].
+        destruct (abegin_state_fields t dt (nno_state c)) as [Q0 [Q1 [Q2 [Q3 [Q4 Q5]]]]].
+        rewrite (end_like_marked cfg cA (bump (cur c)) id p st) in EL by
+          (first [rewrite F1, Q0; change (stack (nno_state c)) with (stack c); rewrite St; reflexivity | exact V
+                 | apply is_marker_entry_bump; exact ME]).
+        match type of EL with context [mark_object cfg ?d ?c3] => destruct (mark_object cfg d c3) as [c4|] eqn:MO; [|discriminate EL];
+          apply (mark_object_inv _ _ _ _ mk fw) in MO end.
+        - cbn [marker_id set_markers refcount] in MO. assert (regs cA = regs c) as RG by (rewrite F5, Q4; reflexivity).
+          unfold regs in RG. injection RG as RG1 RG2 RG3. rewrite RG3 in MO. exact MO.
+        - assert (regs cA = regs c) as RG by (rewrite F5, Q4; reflexivity). unfold regs in RG. injection RG as RG1 RG2 RG3.
+          unfold Reg. cbn [marked fwd set_markers]. rewrite RG1, RG2. exact Rg. }
+      destruct (chunked_steps_marked cfg c e chs id p st mk fw ME St V CK Mkb O Rg Nm Rc) as [c' [Sc [Vc [Rg' Rc']]]].
+      assert (steps cfg c' rest = Some cf) as Sr.
+      { assert (steps cfg c ((e :: flat_map chunk_events chs) ++ rest) = Some cf) as X
+          by (cbn [app steps]; rewrite R, <- E; exact S').
+        rewrite steps_app, Sc in X. exact X. }
+      unfold core in Vc. inversion Vc as [[E1 E2 E3 E4 E5]].
+      exists 0%nat, (VChunked e chs), rest, c', mk, fw. cbn [repeat app flatten height reg_val wf_val].
+      split; [rewrite E; reflexivity|]. split; [exact Mkb|]. split; [exact CK|]. split; [exact Sc|].
+      do 4 (split; [first [assumption | reflexivity | congruence]|]). split; [exact Sr|]. split; [lia|]. split; [reflexivity|]. split; [exact Nm | exact Rg'].
   Qed.
 
 
@@ -1038,7 +1111,7 @@ Section ParseProofs.
     cbn [length] in L. assert (length es' <= n)%nat as L' by lia.
     destruct key_cells as [KM _].
     destruct (inv_key cfg c e c1 o RMapKey (Some RMapValue) R RK (or_introl eq_refl) KM Ae)
-      as [t E1 E2 | k KO KF Fr Vw | E1 | id E1 _ | id E1 _].
+      as [t E1 E2 | k KO KF Fr Vw | E1 | id E1 _ | id E1 _ | AB].
     - (* trivia *)
       subst e c1.
       destruct (HE es' c cf mk fw L' S' T Aes K' RK X NS Dp Rg) as [entries [close [rest [c2 [mk' [fw' [E [W [Dk [Fr [S2 [U1 [U2 [U3 [U5 [U6 [U7 [S3 [Hh [Rl Rg2]]]]]]]]]]]]]]]]]]]].
@@ -1089,8 +1162,11 @@ Section ParseProofs.
       do 3 (split; [reflexivity|]). split; [exact RK|]. split; [reflexivity|]. split; [exact X|]. split; [exact S0|]. split; [lia|].
       split; [reflexivity | exact Rg].
     - (* a marker where a key is expected: excluded *)
-      subst e. exfalso. apply Kh; [reflexivity | exact RK].
-    - subst e. exfalso. apply Kh; [reflexivity | exact RK].
+      subst e. exfalso. destruct (Kh eq_refl) as [Xk _]. exact (Xk RK).
+    - subst e. exfalso. destruct (Kh eq_refl) as [Xk _]. exact (Xk RK).
+    - (* an array delivered in chunks where a key is expected: excluded *)
+      exfalso. assert (not_a_plain_key e = true) as Xk by (unfold not_a_plain_key; rewrite AB; apply orb_true_r).
+      destruct (Kh Xk) as [Yk _]. exact (Yk RK).
   Qed.
 
   Theorem parse_all n : PV cfg n /\ PI cfg n /\ PE cfg n /\ PM cfg n.
@@ -1153,7 +1229,7 @@ Section Top.
   (* the fields of a record type *)
   Definition PF (n : nat) : Prop :=
     forall es c cf, (length es <= n)%nat -> steps cfg c es = Some cf -> e_rule (cur cf) = RTerminal ->
-      Forall (fun e => alpha e = true) es -> e_rule (cur c) = RRecordType -> e_expected (cur c) = None ->
+      Forall (fun e => alpha e = true) es -> NKM cfg c es -> e_rule (cur c) = RRecordType -> e_expected (cur c) = None ->
       exists fields close rest c2,
         es = flat_map field_events fields ++ map trivia_event close ++ EEnd :: rest /\
         forallb (fun f => key_ok cfg (snd f)) fields = true /\
@@ -1167,18 +1243,19 @@ Section Top.
 
   Lemma fields_parse n : PF n.
   Proof.
-    induction n as [|n IH]; intros es c cf L S T A RK X.
+    induction n as [|n IH]; intros es c cf L S T A K RK X.
     { destruct es; [|cbn in L; lia]. cbn in S. inv_some. rewrite RK in T. discriminate T. }
     destruct es as [|e es'].
     { cbn in S. inv_some. rewrite RK in T. discriminate T. }
-    pose proof S as S0. apply steps_cons_inv in S as [c1 [o [R S']]].
+    pose proof (NKM_head _ _ _ _ K) as Kh.
+    pose proof S as S0. apply steps_cons_inv in S as [c1 [o [R S']]]. pose proof (NKM_cons _ _ _ _ _ _ K R) as K'.
     inversion A as [|? ? Ae Aes]; subst. cbn [length] in L. assert (length es' <= n)%nat as L' by lia.
     destruct key_cells as [_ KM].
     destruct (inv_key cfg c e c1 o RRecordType None R RK (or_intror eq_refl) KM Ae)
-      as [t E1 E2 | k KO KF Fr Vw | E1 | id E1 RM | id E1 RM].
+      as [t E1 E2 | k KO KF Fr Vw | E1 | id E1 RM | id E1 RM | AB].
     - (* trivia *)
       subst e c1.
-      destruct (IH es' c cf L' S' T Aes RK X) as [fields [close [rest [c2 [E [W [Dk [Fr [S2 [U1 [U2 [U3 [U4 [U5 [U6 [U7 [U8 [U9 S3]]]]]]]]]]]]]]]]]].
+      destruct (IH es' c cf L' S' T Aes K' RK X) as [fields [close [rest [c2 [E [W [Dk [Fr [S2 [U1 [U2 [U3 [U4 [U5 [U6 [U7 [U8 [U9 S3]]]]]]]]]]]]]]]]]].
       destruct fields as [|[tv k] fields].
       + exists [], (t :: close), rest, c2. cbn [flat_map map app forallb length nkeys_distinct] in *.
         split; [rewrite E; reflexivity|]. split; [reflexivity|]. split; [reflexivity|].
@@ -1194,7 +1271,7 @@ Section Top.
       apply view_core in Vw as [Vw Gw]. unfold core in Vw. inversion Vw as [[E1 E2 E3 E4 E5]].
       assert (nkey_of e = Some (norm_key k)) as NK by (unfold nkey_of; rewrite KF; reflexivity).
       pose proof (rstep_rectype_name _ _ _ _ _ R (key_not_rectype _ _ KF)) as RN.
-      destruct (IH es' c1 cf L' S' T Aes) as [fields [close [rest [c2 [E [W [Dk [Fr' [S2 [U1 [U2 [U3 [U4 [U5 [U6 [U7 [U8 [U9 S3]]]]]]]]]]]]]]]]]];
+      destruct (IH es' c1 cf L' S' T Aes K') as [fields [close [rest [c2 [E [W [Dk [Fr' [S2 [U1 [U2 [U3 [U4 [U5 [U6 [U7 [U8 [U9 S3]]]]]]]]]]]]]]]]]];
         [rewrite E1; cbn; exact RK | rewrite E1; cbn; exact X |].
       exists (([], e) :: fields), close, rest, c2.
       cbn [flat_map map app forallb length nkeys_distinct field_events fst snd].
@@ -1220,13 +1297,16 @@ Section Top.
       do 5 (split; [reflexivity|]). split; [exact RK|]. split; [reflexivity|]. split; [exact X|]. split; [lia | exact S0].
     - rewrite RK in RM. discriminate RM.
     - rewrite RK in RM. discriminate RM.
+    - (* an array delivered in chunks as a field name: excluded *)
+      exfalso. assert (not_a_plain_key e = true) as Xk by (unfold not_a_plain_key; rewrite AB; apply orb_true_r).
+      destruct (Kh Xk) as [_ Yk]. exact (Yk RK).
   Qed.
 
 
   (* record types and trivia before the top-level value *)
   Definition PP (n : nat) : Prop :=
     forall es c cf rts, (length es <= n)%nat -> steps cfg c es = Some cf -> e_rule (cur cf) = RTerminal ->
-      Forall (fun e => alpha e = true) es -> TopS c rts (objects c) ->
+      Forall (fun e => alpha e = true) es -> NKM cfg c es -> TopS c rts (objects c) ->
       exists pre rest c1 rts', es = flat_map flatten_top pre ++ rest /\ declare cfg rts pre = Some rts' /\
         steps cfg c (flat_map flatten_top pre) = Some c1 /\ TopS c1 rts' (objects c1) /\ steps cfg c1 rest = Some cf /\
         head_ok c1 rest /\ (has_rectype pre = true -> 1 <= max_container_depth cfg).
@@ -1235,7 +1315,7 @@ Section Top.
 
   Lemma pre_parse n : PP n.
   Proof.
-    induction n as [|n IH]; intros es c cf rts L S T A Tp.
+    induction n as [|n IH]; intros es c cf rts L S T A K Tp.
     { destruct es; [|cbn in L; lia]. cbn in S. inv_some. destruct Tp as [T1 _]. rewrite T1 in T. discriminate T. }
     destruct es as [|e es'].
     { cbn in S. inv_some. destruct Tp as [T1 _]. rewrite T1 in T. discriminate T. }
@@ -1244,8 +1324,8 @@ Section Top.
     destruct (is_trivia e) eqn:IT.
     { apply is_trivia_spec in IT as [t ->].
       assert (rstep cfg c (trivia_event t) = Some (c, [trivia_event t])) as R by (apply step_trivia; rewrite T1; reflexivity).
-      cbn [steps] in S. rewrite R in S.
-      destruct (IH es' c cf _ L' S T Aes Tp) as [pre [rest [c1 [rts' [E [Dc [S1 [Tp1 [S2 [Hd Hr]]]]]]]]]].
+      cbn [steps] in S. rewrite R in S. pose proof (NKM_cons _ _ _ _ _ _ K R) as K'.
+      destruct (IH es' c cf _ L' S T Aes K' Tp) as [pre [rest [c1 [rts' [E [Dc [S1 [Tp1 [S2 [Hd Hr]]]]]]]]]].
       exists (TopTrivia t :: pre), rest, c1, rts'. cbn [flat_map flatten_top app declare].
       split; [rewrite E; reflexivity|]. split; [exact Dc|]. split; [cbn [steps]; rewrite R; exact S1|].
       split; [exact Tp1|]. split; [exact S2|]. split; [exact Hd | exact Hr]. }
@@ -1253,7 +1333,8 @@ Section Top.
     { apply is_rectype_spec in IR as [id ->].
       apply steps_cons_inv in S as [c1 [o [R S']]].
       destruct (inv_rectype c id c1 o R T1) as [Vi [_ [Dp [E1 [E2 [E3 [E4 [E5 E6]]]]]]]].
-      destruct (fields_parse _ es' c1 cf L' S' T Aes) as [fields [close [rest [c2 [E [W [Dk [Fr [S2 [U1 [U2 [U3 [U4 [U5 [U6 [U7 [U8 [U9 S3]]]]]]]]]]]]]]]]]];
+      pose proof (NKM_cons _ _ _ _ _ _ K R) as K'.
+      destruct (fields_parse _ es' c1 cf L' S' T Aes K') as [fields [close [rest [c2 [E [W [Dk [Fr [S2 [U1 [U2 [U3 [U4 [U5 [U6 [U7 [U8 [U9 S3]]]]]]]]]]]]]]]]]];
         [rewrite E1; reflexivity | rewrite E1; reflexivity |].
       apply steps_cons_inv in S3 as [c3 [o3 [R3 S3]]].
       destruct (inv_rectype_end c2 c3 o3 (cur c) R3 U6) as [Al [F1 [F2 [F3 [F4 F5]]]]];
@@ -1266,7 +1347,9 @@ Section Top.
       { apply (f_equal (@length event)) in E. rewrite !app_length in E. cbn [length] in E. lia. }
       assert (Forall (fun e => alpha e = true) rest) as A3.
       { rewrite E in Aes. apply Forall_app in Aes as [_ Aes]. apply Forall_app in Aes as [_ Aes]. inversion Aes; assumption. }
-      destruct (IH rest c3 cf _ L3 S3 T A3 Tp3) as [pre [rest' [c4 [rts' [E' [Dc [S4 [Tp4 [S5 [Hd Hr]]]]]]]]]].
+      assert (NKM cfg c3 rest) as K3.
+      { rewrite E, app_assoc in K'. pose proof (NKM_app _ _ _ _ _ K' S2) as K2. exact (NKM_cons _ _ _ _ _ _ K2 R3). }
+      destruct (IH rest c3 cf _ L3 S3 T A3 K3 Tp3) as [pre [rest' [c4 [rts' [E' [Dc [S4 [Tp4 [S5 [Hd Hr]]]]]]]]]].
       exists (TopRecType id fields close :: pre), rest', c4, rts'. cbn [flat_map flatten_top declare].
       change (fun f : list trivia * event => map trivia_event (fst f) ++ [snd f]) with field_events.
       split; [rewrite E, E'; cbn [app]; f_equal; rewrite <- !app_assoc; reflexivity|].
@@ -1313,7 +1396,7 @@ Section Top.
     pose proof (NKM_app _ _ _ _ _ K S0) as K0.
     rewrite steps_app, S0 in S.
     assert (Forall (fun e => alpha e = true) (body ++ [EEndDoc])) as A1 by (inversion A as [|? ? _ A']; inversion A'; assumption).
-    destruct (pre_parse _ (body ++ [EEndDoc]) c0 cf [] (le_n _) S T A1 T0) as [pre [rest [c1 [rts [E [Dc [S1 [Tp1 [S2 [Hd Hr]]]]]]]]]].
+    destruct (pre_parse _ (body ++ [EEndDoc]) c0 cf [] (le_n _) S T A1 K0 T0) as [pre [rest [c1 [rts [E [Dc [S1 [Tp1 [S2 [Hd Hr]]]]]]]]]].
     pose proof Tp1 as [T1 [T2 [T3 [T4 [T5 [T6 [T7 _]]]]]]].
     assert (Forall (fun e => alpha e = true) rest) as A2 by (rewrite E in A1; apply Forall_app in A1; tauto).
     assert (NKM cfg c1 rest) as K1 by (rewrite E in K0; exact (NKM_app _ _ _ _ _ K0 S1)).
@@ -1339,72 +1422,63 @@ Section Top.
 
 End Top.
 
-Lemma NKM_init cfg es : value_markers_only cfg es -> NKM cfg init_rctx es.
+Lemma NKM_init cfg es : plain_keys_only cfg es -> NKM cfg init_rctx es.
 Proof.
-  intros H p e r c' E S M X. apply (H p e r E M). unfold rule_in_force.
-  rewrite (proj2 (state_after_steps cfg p c') S), X. reflexivity.
+  intros H p e r c' E S M. destruct (H p e r E M) as [H1 H2]. unfold rule_in_force in H1, H2.
+  rewrite (proj2 (state_after_steps cfg p c') S) in H1, H2. split; intro X; [apply H1 | apply H2]; rewrite X; reflexivity.
 Qed.
 
+Lemma all_alpha es : Forall (fun e => alpha e = true) es.
+Proof. induction es; constructor; [reflexivity | assumption]. Qed.
+
 (* the side condition, decided along the run *)
-Lemma value_markers_from_sound cfg es : forall c pre,
-  steps cfg init_rctx pre = Some c -> value_markers_from cfg c es = true ->
-  forall p e tl, es = p ++ e :: tl -> is_marker_or_ref e = true -> rule_in_force cfg (pre ++ p) <> Some RMapKey.
+Lemma plain_keys_from_sound cfg es : forall c pre,
+  steps cfg init_rctx pre = Some c -> plain_keys_from cfg c es = true ->
+  forall p e tl, es = p ++ e :: tl -> not_a_plain_key e = true ->
+    rule_in_force cfg (pre ++ p) <> Some RMapKey /\ rule_in_force cfg (pre ++ p) <> Some RRecordType.
 Proof.
   induction es as [|x es IH]; intros c pre S H p e tl E M.
   - destruct p; discriminate.
-  - cbn [value_markers_from] in H. apply andb_true_iff in H as [H1 H2]. destruct p as [|y p]; cbn [app] in E; injection E as -> E.
-    + rewrite app_nil_r. unfold rule_in_force. rewrite (proj2 (state_after_steps cfg pre c) S). intro X. injection X as X.
-      rewrite M, X in H1. discriminate.
+  - cbn [plain_keys_from] in H. apply andb_true_iff in H as [H1 H2]. destruct p as [|y p]; cbn [app] in E; injection E as -> E.
+    + rewrite app_nil_r. unfold rule_in_force. rewrite (proj2 (state_after_steps cfg pre c) S). rewrite M in H1.
+      split; intro X; injection X as X; rewrite X in H1; discriminate H1.
     + destruct (rstep cfg c y) as [[c1 o]|] eqn:R.
       * replace (pre ++ y :: p) with ((pre ++ [y]) ++ p) by (rewrite <- app_assoc; reflexivity).
         assert (steps cfg init_rctx (pre ++ [y]) = Some c1) as S1 by (rewrite steps_app, S; cbn [steps]; rewrite R; reflexivity).
         exact (IH c1 (pre ++ [y]) S1 H2 p e tl E M).
-      * unfold rule_in_force. destruct (state_after cfg (pre ++ y :: p)) as [c2|] eqn:SA; [|discriminate]. exfalso.
+      * unfold rule_in_force. destruct (state_after cfg (pre ++ y :: p)) as [c2|] eqn:SA; [|split; discriminate]. exfalso.
         apply state_after_steps in SA. rewrite steps_app, S in SA. cbn [steps] in SA. rewrite R in SA. discriminate.
 Qed.
-Lemma value_markers_onlyb_sound cfg es : value_markers_onlyb cfg es = true -> value_markers_only cfg es.
-Proof. intros H p e tl E M. exact (value_markers_from_sound cfg es init_rctx [] eq_refl H p e tl E M). Qed.
+Lemma plain_keys_onlyb_sound cfg es : plain_keys_onlyb cfg es = true -> plain_keys_only cfg es.
+Proof. intros H p e tl E M. exact (plain_keys_from_sound cfg es init_rctx [] eq_refl H p e tl E M). Qed.
 
 Theorem accepted_is_wf_grammar cfg es :
-  in_grammar es = true -> value_markers_only cfg es -> accepts_document cfg es = true ->
+  plain_keys_only cfg es -> accepts_document cfg es = true ->
   exists d, wf_doc cfg d = true /\ flatten_doc cfg d = es /\ doc_height d <= max_container_depth cfg.
-Proof.
-  intros G K A. apply accepted_is_wf_gen; [|apply NKM_init; exact K | exact A].
-  apply Forall_forall. unfold in_grammar in G. rewrite forallb_forall in G. exact G.
-Qed.
+Proof. intros K A. apply accepted_is_wf_gen; [apply all_alpha | apply NKM_init; exact K | exact A]. Qed.
 
-(* C10 on the grammar's alphabet: an event list with its markers and references in value position is accepted as
-   a complete document exactly when it is the flattening of a well-formed document tree within the object, depth
-   and marker limits. *)
+(* C10: an event list whose keys are plain is accepted as a complete document exactly when it is the flattening of
+   a well-formed document tree within the object, depth and marker limits. *)
 Theorem grammar_exact cfg es :
-  in_grammar es = true -> value_markers_only cfg es ->
+  plain_keys_only cfg es ->
   (accepts_document cfg es = true <->
    exists d, wf_doc cfg d = true /\ flatten_doc cfg d = es /\
              object_usage es <= max_object_count cfg /\ doc_height d <= max_container_depth cfg /\
              marker_usage es <= max_local_reference_count cfg).
 Proof.
-  intros G K. split.
-  - intro A. destruct (accepted_is_wf_grammar cfg es G K A) as [d [W [E D]]].
+  intros K. split.
+  - intro A. destruct (accepted_is_wf_grammar cfg es K A) as [d [W [E D]]].
     destruct (limits_necessary_document _ _ A) as [[O [_ [_ [_ M]]]] _].
     exists d. repeat split; assumption.
   - intros [d [W [E [O [D M]]]]]. subst es. apply wf_doc_accepted; assumption.
 Qed.
 
-(* the marker-free fragment *)
-Lemma fragment_grammar cfg es : in_fragment es = true -> in_grammar es = true /\ value_markers_only cfg es.
+(* without markers, references and arrays in chunks no side condition is left *)
+Lemma fragment_grammar cfg es : in_fragment es = true -> plain_keys_only cfg es.
 Proof.
-  unfold in_fragment, in_grammar. rewrite !forallb_forall. intro F. split.
-  - intros e I. specialize (F e I). unfold plain_event in F. apply andb_true_iff in F. tauto.
-  - intros p e tl E M. exfalso. assert (In e es) as I by (rewrite E; apply in_or_app; right; left; reflexivity).
-    specialize (F e I). unfold plain_event in F. apply andb_true_iff in F as [_ F]. destruct e; discriminate.
-Qed.
-
-Theorem accepted_is_wf cfg es :
-  Forall (fun e => plain_event e = true) es -> accepts_document cfg es = true ->
-  exists d, wf_doc cfg d = true /\ flatten_doc cfg d = es /\ doc_height d <= max_container_depth cfg.
-Proof.
-  intros F A. assert (in_fragment es = true) as F' by (unfold in_fragment; apply forallb_forall; apply Forall_forall; exact F).
-  destruct (fragment_grammar cfg es F') as [G K]. exact (accepted_is_wf_grammar cfg es G K A).
+  unfold in_fragment. rewrite forallb_forall. intros F p e tl E M. exfalso.
+  assert (In e es) as I by (rewrite E; apply in_or_app; right; left; reflexivity).
+  specialize (F e I). unfold plain_event in F. rewrite M in F. discriminate F.
 Qed.
 
 Theorem fragment_exact cfg es :
@@ -1413,4 +1487,4 @@ Theorem fragment_exact cfg es :
    exists d, wf_doc cfg d = true /\ flatten_doc cfg d = es /\
              object_usage es <= max_object_count cfg /\ doc_height d <= max_container_depth cfg /\
              marker_usage es <= max_local_reference_count cfg).
-Proof. intro F. destruct (fragment_grammar cfg es F) as [G K]. exact (grammar_exact cfg es G K). Qed.
+Proof. intro F. exact (grammar_exact cfg es (fragment_grammar cfg es F)). Qed.
